@@ -570,6 +570,7 @@ fn index_oracle(b: &HnswBackend) -> Option<String> {
 }
 
 fn run_history(c: &Case, s: &Strs, dirs: &mut Dirs, h: &mut Hist) -> Ran {
+    kvh::panicrec::set_input_debug(c);
     const DIM: usize = 2;
     let dir = if c.persistent { Some(dirs.next()) } else { None };
     let mut backend = Some(match &dir {
@@ -1308,6 +1309,7 @@ struct Spec {
 }
 
 fn main() {
+    kvh::panicrec::install();
     let args: Vec<String> = std::env::args().collect();
     let mut out = String::from("/verif/.cache/run/C11/out");
     let mut n = 12usize;
